@@ -1,6 +1,7 @@
 """C04 - Secure Binary 2.x: the ROM decodes exactly the command list that was given (DESIGN.md section 4, C04)."""
 from __future__ import annotations
 
+import copy
 import hashlib
 import os
 
@@ -580,10 +581,10 @@ def _cfg_case():
         "build": st.one_of(st.none(), st.integers(0, 0xFFFFFFFF)),
         "dek": opt32, "mac": opt32, "nonce": st.one_of(st.none(), st.binary(min_size=16, max_size=16)),
         "zero_padding": st.booleans(), "timestamp": st.one_of(st.none(), st.integers(946684800, 4102444800)),
-        "kek": st.binary(min_size=32, max_size=32).filter(lambda b: b[0] != 0), "kek_as": st.sampled_from(["file", "config"]),
+        "kek": st.binary(min_size=32, max_size=32).filter(lambda b: b[0] != 0), "kek_as": st.sampled_from(["file", "config", "both"]),
         "rsa_bits": st.sampled_from([2048, 2048, 4096]), "chain": st.lists(st.integers(0, 7), min_size=1, max_size=2, unique=True),
         "rkh_slot": st.integers(0, 3), "other_roots": st.lists(st.integers(0, 7), max_size=3),
-        "certs_as": st.sampled_from(["arguments", "config"]), "twice": st.booleans(),
+        "certs_as": st.sampled_from(["arguments", "config"]), "twice": st.booleans(), "rewrite": st.booleans(),
         "main_id_given": st.booleans(), "key_name": st.sampled_from(["sign", "main"]), "main_id_as": st.sampled_from(["int", "str"]),
     })
 
@@ -597,8 +598,10 @@ def run_cfg_case(case, o: Oracle) -> None:
 
     from spsdk.sbfile.sb2.images import BootImageV21
 
-    _CFGN[0] += 1
-    wd = os.path.join(_WORK.get("dir") or ".", "c04cfg-%d-%d" % (os.getpid(), _CFGN[0]))
+    # one directory per worker, emptied for every case: the same file names come back with other content, as they do for
+    # a user who edits the inputs and builds again
+    wd = os.path.join(_WORK.get("dir") or ".", "c04cfg-%d" % os.getpid())
+    shutil.rmtree(wd, ignore_errors=True)
     os.makedirs(wd, exist_ok=True)
     try:
         _run_cfg(case, o, wd, BootImageV21)
@@ -680,9 +683,12 @@ def _run_cfg(case, o: Oracle, wd: str, BootImageV21) -> None:
         exp_sections.append({"uid": sec["uid"], "hmac_count": 1, "commands": [expected(dict(c, zero=case["zero_padding"]) if c["c"] == "load" else c) for c in sec["commands"]]})
     cfg: dict = {"family": "lpc55s6x", "options": options, "sections": sections_cfg}
     kwargs: dict = {"search_paths": [wd], "rkth_out_path": os.path.join(wd, "rkth.bin")}
-    if case["kek_as"] == "file":
+    if case["kek_as"] in ("file", "both"):
         kwargs["key_file_path"] = kek_path
-    else:
+    if case["kek_as"] == "both":
+        # the key handed to the call (nxpimage's -k) is the one in force; the configuration names another one
+        cfg["containerKeyBlobEncryptionKey"] = (bytes([kek[0] ^ 0xFF]) + kek[1:]).hex()
+    if case["kek_as"] == "config":
         cfg["containerKeyBlobEncryptionKey"] = kek.hex()
     if case["certs_as"] == "arguments":
         kwargs.update(signing_certificate_file_paths=chain_paths, root_key_certificate_paths=root_paths, signature_provider=_signature_provider(chain_keys[-1]))
@@ -708,8 +714,19 @@ def _run_cfg(case, o: Oracle, wd: str, BootImageV21) -> None:
     o.sample({"options": {k: (v if not isinstance(v, str) or len(v) < 20 else v[:16] + "..") for k, v in options.items()},
               "sections": [{"id": s_["section_id"], "commands": [list(c)[0] for c in s_["commands"]]} for s_ in sections_cfg]})
     exports = []
+    exp_round = [exp_sections, exp_sections]
     for rnd in range(2 if case["twice"] else 1):
         data = None
+        if rnd == 1 and case.get("rewrite"):
+            # the input files are edited between the two builds
+            o.label("inputs_rewritten")
+            exp_round[1] = copy.deepcopy(exp_sections)
+            for si, sec in enumerate(case["sections"]):
+                for ci, c in enumerate(sec["commands"]):
+                    if c["c"] == "load":
+                        newd = bytes(b ^ 0x5A for b in bytes(c["data"]))
+                        open(os.path.join(wd, "load_%d_%d.bin" % (si, ci)), "wb").write(newd)
+                        exp_round[1][si]["commands"][ci] = expected(dict(c, data=newd, zero=case["zero_padding"]))
         with o.spsdk("config_build", "round%d" % rnd):
             img = BootImageV21.load_from_config(cfg, **kwargs)
             data = img.export()
@@ -743,7 +760,7 @@ def _run_cfg(case, o: Oracle, wd: str, BootImageV21) -> None:
         with o.spsdk("config_cert_block", "rkth_file"):
             o.eq("config_cert_block", "rkth_file", open(kwargs["rkth_out_path"], "rb").read(), cbm.rkth)
         fake = {"sections": [{"commands": [dict(c, zero=case["zero_padding"]) if c["c"] == "load" else c for c in s_["commands"]]} for s_ in case["sections"]]}
-        _compare_sections("config_content", model["sections"], exp_sections, fake, o)
+        _compare_sections("config_content", model["sections"], exp_round[rnd], fake, o)
     if len(exports) == 2:
         (i1, d1), (i2, d2) = exports
         m1, m2 = sb2_rom.load(d1, kek, check_signature=False), sb2_rom.load(d2, kek, check_signature=False)
